@@ -164,6 +164,8 @@ SCOPES = [
     ("item", {"detection_item_conditions": [{"type": "match_string", "cond": "any", "pattern": ".*v1"}]}, None),
     # the same field scope written as two OR-linked field-name conditions (the second matches nothing)
     ("field-or", {"field_name_conditions": [{"type": "include_fields", "fields": ["zz"]}, {"type": "include_fields", "fields": ["f1"]}], "field_name_cond_op": "or"}, None),
+    # an exclusion list that excludes nothing: everything is in scope, also items without a field name (keywords)
+    ("exclude-none", {"field_name_conditions": [{"type": "exclude_fields", "fields": ["zz"]}]}, None),
     ("rule-true", {"rule_conditions": [{"type": "logsource", "product": "windows"}]}, True),
     ("rule-false", {"rule_conditions": [{"type": "logsource", "product": "linux"}]}, False),
 ]
